@@ -45,6 +45,7 @@ structure State where
   entries : List (Key × Nat)          -- (name,type,data) ↦ expiry of its LAST insertion
   lower : List (Name × Nat)           -- the name was certainly used at or after this time
   upper : List (Name × Nat)           -- … and not after this time
+  seen : List (Name × Nat) := []      -- (name, type) pairs stored at some time since the name (re)appeared
 deriving Repr, Inhabited
 
 def assocGet (l : List (Name × Nat)) (n : Name) : Option Nat := (l.find? (·.1 == n)).map (·.2)
@@ -59,7 +60,8 @@ def State.insert (st : State) (rr : RR) : State :=
     let k : Key := ⟨rr.name, rr.rtype, rr.fields⟩
     { st with entries := (st.entries.filter (·.1 != k)) ++ [(k, st.now + rr.ttl * NANOS)]
               lower := assocSet st.lower rr.name st.now
-              upper := assocSet st.upper rr.name st.now }
+              upper := assocSet st.upper rr.name st.now
+              seen := if st.seen.contains (rr.name, rr.rtype) then st.seen else st.seen ++ [(rr.name, rr.rtype)] }
   else st
 
 /-- what a lookup at time `now` may and must return; `none` = fine, `some why` = violation. -/
@@ -88,8 +90,14 @@ def State.checkGet (st : State) (n : Name) (qtype : Nat) (unchecked : Bool) (rrs
       | some _ => some "live-record-not-returned"
       | none => none
 
-def State.afterGet (st : State) (n : Name) (rrs : List RR) : State :=
-  let st1 := if (assocGet st.upper n).isSome then { st with upper := assocSet st.upper n st.now } else st
+/-- A lookup is a use of the name when it returns something (`lower` moves).  When it returns nothing
+    it MAY still have been one (`upper` moves) - the store holds records of the asked type which
+    were filtered out as expired, or did so at some time since the name (re)appeared in the store
+    (the Rust keeps the emptied per-type vector) - but not when the name never held a record of
+    the asked type: a miss is not a use. -/
+def State.afterGet (st : State) (n : Name) (qtype : Nat) (rrs : List RR) : State :=
+  let mayTouch := !rrs.isEmpty || st.seen.any (fun (m, t) => m == n && rtypeMatches t qtype)
+  let st1 := if mayTouch && (assocGet st.upper n).isSome then { st with upper := assocSet st.upper n st.now } else st
   if rrs.isEmpty then st1 else { st1 with lower := assocSet st1.lower n st.now }
 
 def minList : List Nat → Option Nat
@@ -176,6 +184,7 @@ def State.afterPrune (st : State) (a : Dump) : State :=
   let names := a.parts.map (·.name)
   { st with entries := st.entries.filter (fun e => des.contains e)
             lower := st.lower.filter (fun x => names.contains x.1)
-            upper := st.upper.filter (fun x => names.contains x.1) }
+            upper := st.upper.filter (fun x => names.contains x.1)
+            seen := st.seen.filter (fun x => names.contains x.1) }
 
 end Resolved.CSpec
